@@ -46,7 +46,7 @@ def normalized(name):
     return name
 
 
-PLAIN_COL_NAMES = ["id", "name", "qty", "price", "created_at", "status", "ref_id", "note", "flag", "amount", "customerId", "Order_No", "a1b2", "x",
+PLAIN_COL_NAMES = ["id", "name", "qty", "price", "created_at", "status", "ref_id", "note", "flag", "amount", "customerId", "Order_No", "a1b2", "x", "emp#", "cost$",
              "ts", "code", "email", "parent_id", "is_active", "total_sum", "c_17", "Z", "updated", "lat", "lon", "descr", "payload", "region"]
 # keyword-shaped names (legal column names in SQL); never used as the target of an ALTER / INDEX follow-up (C06 finding: ALTER on keyword-named columns)
 KEYWORD_COL_NAMES = ["order", "comment", "type", "value", "key", "default", "table", "schema", "date", "time", "timestamp", "user", "group", "role",
